@@ -3,6 +3,7 @@
 #![allow(clippy::all)]
 #![allow(non_snake_case)]
 
+mod c19;
 mod dump_grammar;
 mod dump_spirv;
 #[allow(unused_macros, dead_code)]
@@ -23,6 +24,7 @@ fn main() {
         "dump-spirv" => dump_spirv::dump(&args[2], &args[3]),
         "sweep-spirv" => dump_spirv::sweep(&args[2]),
         "dump-grammar" => dump_grammar::dump(&args[2]),
+        "c19" => c19::run(&args[2], args[3].parse().unwrap(), &args[4], &args[5]),
         other => {
             eprintln!("unknown command {}", other);
             std::process::exit(2);
